@@ -5,7 +5,7 @@ import (
 	zz "rare/pkg/zzverif"
 )
 
-var zzHarnesses = map[string]func(){"H11Hi": H11Hi}
+var zzHarnesses = map[string]func(){"H11Hi": H11Hi, "H11Unit": H11Unit}
 
 // H11Hi: hi only inserts thousands separators: removing ',' gives the decimal
 // rendering, and commas sit exactly every three digits from the right.
@@ -45,5 +45,88 @@ func H11Hi() {
 		nd++
 	}
 	zz.Assert(len(got) > 0 && got[0] != ',' && (len(got) < 2 || !(got[0] == '-' && got[1] == ',')), "leading separator")
+	zz.Reached()
+}
+
+func zzAbs(n int64) int64 {
+	if n < 0 {
+		return -n
+	}
+	return n
+}
+
+// H11Unit: downscale / bytesize pick the unit by magnitude: below one step
+// the plain integer (with the base unit), from one step on a larger unit,
+// and at the exact powers of the step (both signs) the unit of that power
+// with mantissa 1.
+func H11Unit() {
+	units := unitSize[:]
+	step := int64(1000)
+	delim := ""
+	kind := zz.Choice(3)
+	call := func(n int64, prec int) string { return AlwaysDownscale(n, prec) }
+	switch kind {
+	case 1:
+		units, delim = siSizes[:], " "
+		call = func(n int64, prec int) string { return AlwaysByteSizeSi(uint64(n), prec) }
+	case 2:
+		units, delim, step = iecSizes[:], " ", 1024
+		call = func(n int64, prec int) string { return AlwaysByteSize(uint64(n), prec) }
+	}
+	prec := zz.Choice(3)
+	if zz.Choice(2) == 0 {
+		// any magnitude: only the choice "base unit or not" is claimed (the mantissa is float formatting)
+		zz.AbstractFloatText(true)
+		zz.AbstractFloatArith(true)
+		n := zz.Int64()
+		zz.Assume(n > -(1<<53) && n < (1<<53))
+		if kind != 0 {
+			zz.Assume(n >= 0)
+		}
+		got := call(n, prec)
+		base := delim + units[0]
+		if zzAbs(n) < step {
+			zz.Assert(got == zz.IntStr(n)+base, "a number below one step is not printed as the plain integer")
+		} else {
+			zz.Assert(len(got) > 0, "empty result")
+			last := got[len(got)-1]
+			isBase := last >= '0' && last <= '9'
+			if kind != 0 {
+				isBase = len(got) >= 2 && got[len(got)-2] == ' ' // "<n> B" / "<n> b": a one-letter unit
+			}
+			zz.Assert(!isBase, "a magnitude of one step or more is printed in the base unit")
+		}
+	} else {
+		// exact powers of the step and their neighbours, both signs (concrete: float formatting is executed)
+		k := 1 + zz.Choice(4)
+		p := int64(1)
+		for i := 0; i < k; i++ {
+			p *= step
+		}
+		d := int64(zz.Choice(3)) - 1
+		n := p + d
+		if kind == 0 && zz.Choice(2) == 1 {
+			n = -n
+		}
+		rank := k
+		if zzAbs(n) < p {
+			rank = k - 1
+		}
+		got := call(n, prec)
+		suffix := delim + units[rank]
+		zz.Assert(len(got) > len(suffix) && got[len(got)-len(suffix):] == suffix, "wrong unit at a power of the step")
+		num := got[:len(got)-len(suffix)]
+		zz.Assert(len(num) > 0 && (num[len(num)-1] >= '0' && num[len(num)-1] <= '9'), "unit not directly after the number")
+		if d == 0 {
+			want := "1"
+			if n < 0 {
+				want = "-1"
+			}
+			if prec > 0 {
+				want += "." + "00"[:prec]
+			}
+			zz.Assert(num == want, "an exact power of the step is not 1 of its unit")
+		}
+	}
 	zz.Reached()
 }
